@@ -33,6 +33,20 @@ def lincheck(chk, kind_model, real, hist_file, tag, workers=4):
     n = vf.count_lines(hist_file)
     if n == 0:
         chk.infra.append("no histories recorded for %s" % tag); return 0, []
+    # the library "forces" a lock open after MAX_MUTEX_LOCK_WAIT failed attempts.  Under the deterministic scheduler no thread ever
+    # waits for another one, so a forced unlock there means a thread could not re-enter a lock it holds itself (a walk under the
+    # caller's lock calls locking methods): mutual exclusion is gone from that moment.  (Free-running stress: recorded only.)
+    nforced = 0
+    with open(hist_file) as f:
+        for i, line in enumerate(f, 1):
+            m = re.search(r'"forced":(\d+)', line)
+            if m and int(m.group(1)) > 0:
+                nforced += 1
+                if tag.startswith("P") and nforced <= 2:
+                    chk.violation("conc:%s:forced-unlock" % real, "history %d of %s (%s): the container's lock was forced open %s time(s) although no other "
+                                  "thread was holding it (nested acquisition by the holder failed):\n%s" % (i, tag, real, m.group(1), line[:1500]),
+                                  dict(kind="forced", container=real, history=json.loads(line)))
+    if nforced: chk.parts.setdefault("forced_unlocks", {})[tag] = nforced
     r = vf.tlc("LinCheck", cfg, workers=workers, env={"TRACE": hist_file}, timeout=1500, outfile=out, heap="6g")
     ok = set()
     with open(out, errors="replace") as f:
